@@ -24,7 +24,8 @@ RULE = (
     "case = one real search with prefix verification (class x pack x database), followed by "
     "expand_verified() on the returned specification; judged: it returns, same root, terms equal brute "
     "force to N, C02 well-formedness of every specification built on the way, no verified class with a "
-    "pack left, no rule object shared with the original, original's rules and terms unchanged. "
+    "pack left (each verification rule is asked itself; a fifth of the packs have a strategy that offers a pack "
+    "for some of its classes only), no rule object shared with the original, original's rules and terms unchanged. "
     "The prefix-verification packs nest (the pack offered for a verified class verifies again, up to two "
     "further levels). case kind table = an integer universe as strategies in which 1-3 verified classes "
     "can be expanded only through a reverse rule (forward attempt ends in SpecificationNotFound, then the "
